@@ -1592,6 +1592,8 @@ class Engine:
             for c in self.mro(o.cls):
                 if (c, "set:" + name) in self.methods:
                     res = self.methods[(c, "set:" + name)](self, s, o, (v,), {})
+                    if len(res) == 0:
+                        raise PathEnded()          # the setter raised (recorded on the raise stack): this path does not continue
                     if len(res) != 1 or res[0][1] is not s:
                         raise Unsupported("forking property setter in assignment")
                     return
@@ -1632,8 +1634,11 @@ class Engine:
         out = []
         for v, s in self.ev(n.value, st):
             s = self.fork(s)
-            for t in n.targets:
-                self.assign(t, v, s)
+            try:
+                for t in n.targets:
+                    self.assign(t, v, s)
+            except PathEnded:
+                continue
             out.append(("normal", None, s))
         return out
 
